@@ -66,16 +66,34 @@ class GhostFS:
         S(r'^<walkdir::IntoIter as Iterator>::next$',self.next,'walkdir::IntoIter::next')
         S(r'^walkdir::IntoIter::skip_current_dir$',lambda e,run,a,f: UNIT,'walkdir::IntoIter::skip_current_dir')
         S(r'^walkdir::DirEntry::path$',lambda e,run,a,f: Ref(Cell(Agg('Path',[mk_string(deref(a[0]).p)]))),'walkdir::DirEntry::path')
-        S(r'^(std::fs::)?symlink_metadata$',self.meta,'std::fs::symlink_metadata [ghost file system]')
-        S(r'^(std::fs::)?Metadata::file_type$',lambda e,run,a,f: Opaque('FileType',deref(a[0]).p),'std::fs::Metadata::file_type')
+        S(r'^(std::fs::)?symlink_metadata$',self.meta,'std::fs::symlink_metadata [ghost file system; does not follow links]')
+        S(r'^(std::fs::)?metadata$',self.meta_follow,'std::fs::metadata [ghost file system; follows links]')
+        S(r'^(std::fs::)?read_link$',self.read_link,'std::fs::read_link [ghost file system]')
+        S(r'^(std::fs::)?Metadata::len$',lambda e,run,a,f: Int(64,False,deref(a[0]).p[1]),'std::fs::Metadata::len')
+        S(r'^(std::fs::)?Metadata::is_file$',lambda e,run,a,f: Bool(deref(a[0]).p[0]=='file'),'std::fs::Metadata::is_file')
+        S(r'^(std::fs::)?Metadata::is_dir$',lambda e,run,a,f: Bool(deref(a[0]).p[0]=='dir'),'std::fs::Metadata::is_dir')
+        S(r'^(std::io::)?Read::take$|^<.* as (std::io::)?Read>::take$',lambda e,run,a,f: Opaque('Take',{'inner':a[0],'limit':a[1]}),'std::io::Read::take')
+        S(r'^(std::fs::)?Metadata::file_type$',lambda e,run,a,f: Opaque('FileType',deref(a[0]).p[0]),'std::fs::Metadata::file_type')
         S(r'^FileType::is_symlink$',lambda e,run,a,f: Bool(deref(a[0]).p=='symlink'),'FileType::is_symlink')
         S(r'^FileType::is_file$',lambda e,run,a,f: Bool(deref(a[0]).p=='file'),'FileType::is_file')
         S(r'^FileType::is_dir$',lambda e,run,a,f: Bool(deref(a[0]).p=='dir'),'FileType::is_dir')
         S(r'^(std::fs::)?File::open$',self.open,'std::fs::File::open [ghost file system]')
         S(r'^BufReader::new$',lambda e,run,a,f: a[0],'std::io::BufReader::new')
         S(r' as (std::io::)?Read>::read$',self.read,'std::io::Read::read [nondeterministic chunking of the ghost file content]')
+    def resolve(self,run,p):
+        """follow symbolic links the way the kernel does: a relative target is relative to the directory holding the link"""
+        links=run.ghost.get('links',{})
+        for _ in range(8):
+            if p.startswith('@ROOT/'): p=p[len('@ROOT/'):]
+            if p not in links: return p
+            t=links[p]
+            if t.startswith('@ROOT/'): p=t
+            else:
+                import posixpath
+                p=posixpath.normpath(posixpath.join(posixpath.dirname(p),t))
+        return None
     def walk(self,e,run,a,f):
-        root=deref(a[0]).p; fs=run.ghost['fs']
+        root=deref(a[0]).p; fs=dict(run.ghost['fs']); fs.update({p:None for p in run.ghost.get('links',{})})
         ents=set()
         for p in fs:
             if p==root or p.startswith(root.rstrip('/')+'/'):
@@ -90,37 +108,61 @@ class GhostFS:
         return some(ok(Opaque('DirEntry',p)))
     def kind(self,run,p):
         fs=run.ghost['fs']
+        if p.startswith('@ROOT/'): p=p[len('@ROOT/'):]
+        if p in run.ghost.get('links',{}): return 'symlink'
         if p in fs: return 'file'
         if any(q.startswith(p.rstrip('/')+'/') for q in fs): return 'dir'
         return None
+    def size(self,run,p,k):
+        if p.startswith('@ROOT/'): p=p[len('@ROOT/'):]
+        if k=='symlink': return len(run.ghost['links'][p].replace('@ROOT/','/tmp/verif-root/').encode())
+        if k=='file': return len(run.ghost['fs'][p])
+        return 4096
     def meta(self,e,run,a,f):
         p=need_conc(pb_bytes(a[0]),'metadata path').decode(); k=self.kind(run,p)
         if k is None: return err(Opaque('io::Error','not found'))
-        return ok(Opaque('Metadata',k))
+        return ok(Opaque('Metadata',(k,self.size(run,p,k))))
+    def meta_follow(self,e,run,a,f):
+        p=self.resolve(run,need_conc(pb_bytes(a[0]),'metadata path').decode())
+        k=self.kind(run,p) if p is not None else None
+        if k is None: return err(Opaque('io::Error','not found'))
+        return ok(Opaque('Metadata',(k,self.size(run,p,k))))
+    def read_link(self,e,run,a,f):
+        p=need_conc(pb_bytes(a[0]),'read_link path').decode()
+        if p not in run.ghost.get('links',{}): return err(Opaque('io::Error','not a link'))
+        return ok(Agg('PathBuf',[mk_string(run.ghost['links'][p])]))
     def open(self,e,run,a,f):
-        p=need_conc(pb_bytes(a[0]),'open path').decode()
-        if self.kind(run,p)!='file': return err(Opaque('io::Error','not found'))
+        p0=need_conc(pb_bytes(a[0]),'open path').decode()
+        p=self.resolve(run,p0)
+        if p is None or self.kind(run,p)!='file': return err(Opaque('io::Error','not found'))
         run.ghost['opened'].append(p)
         return ok(Ref(Cell(Opaque('File',{'path':p,'pos':0,'reads':0}))))
     def read(self,e,run,a,f):
-        fo=deref(a[0]); st=fo.p; content=run.ghost['fs'][st['path']]; buf=deref(a[1])
+        fo=deref(a[0]); limit=None
+        if isinstance(fo,Opaque) and fo.kind=='Take':
+            lim=fo.p['limit']
+            if not lim.conc(): raise Unsupported('symbolic Take limit')
+            limit=lim.v-fo.p.get('taken',0); tk=fo; fo=deref(fo.p['inner'])
+        st=fo.p; content=run.ghost['fs'][st['path']]; buf=deref(a[1])
         rem=len(content)-st['pos']
+        if limit is not None: rem=min(rem,max(limit,0))
         st['reads']+=1
         if rem==0: return ok(Int(64,False,0))
         if run.ghost.get('io_error_at')==(st['path'],st['reads']): return err(Opaque('io::Error','read failed'))
         k=1+run.pick(rem,'chunk')
         for i in range(k): buf.items[i]=Int(8,False,content[st['pos']+i])
         st['pos']+=k
+        if limit is not None: tk.p['taken']=tk.p.get('taken',0)+k
         return ok(Int(64,False,k))
 
 class Record(Obligation):
     name='C18.record_artifacts'
     hash_order='fixed'
-    def __init__(self,seed=0,known=(),flen=2,**kw):
-        self.seed=seed; self.flen=flen
+    def __init__(self,seed=0,known=(),flen=2,nlinks=5,**kw):
+        self.seed=seed; self.flen=flen; self.nlinks=nlinks
         self.bounds={'ghost file system':'files r/left/w, r/right/w (optionally r/left/x) with 0..%d free content bytes each'%flen,'path arguments':'[r], [r/left, r/right] or [r/left] (non-overlapping)',
                      'strip prefixes':'none; [r/]; [r/left/, r/right/] (keys collide); [r/, r/left/] (longest wins)','hash algorithms':'default, [sha256], [sha256, sha512], [md5] (unknown)',
-                     'read schedule':'every split of each file into non-empty chunks; optionally one failing read','symbolic links':'none in the ghost file system (link following and cycles are outside the claim)'}
+                     'read schedule':'every split of each file into non-empty chunks; optionally one failing read','symbolic links':'none, or one link to a file: relative target in the same directory, absolute target, relative target through .., or a chain of two links (links to directories and link cycles are outside the claim)'}
         self.witnesses=['recorded','duplicate_key_error','unknown_algorithm_error','io_error']; self.seen=set()
     def setup(self,eng,tier):
         self.eng=eng; self.b=B(eng); self.fs=GhostFS(eng,self.b); self.fn=eng.find_fn('record_artifacts')
@@ -135,17 +177,25 @@ class Record(Obligation):
             n=run.pick(self.flen+1,'len_'+name); return [z3.BitVec('%s_%d'%(name,i),8) for i in range(n)]
         fs={'r/left/w':content('lw'),'r/right/w':content('rw')}
         if run.pick(2,'extra'): fs['r/left/x']=content('lx')
+        links=[{},{'r/left/l':'w'},{'r/left/l':'@ROOT/r/left/w'},{'r/right/l':'../left/w'},{'r/left/l':'l2','r/left/l2':'w'}][run.pick(self.nlinks,'link')]
         paths=[['r'],['r/left','r/right'],['r/left']][run.pick(3,'paths')]
         strips=[None,['r/'],['r/left/','r/right/'],['r/','r/left/']][run.pick(4,'strips')]
         algs=[None,['sha256'],['sha256','sha512'],['md5']][run.pick(4,'algs')]
-        run.ghost.update({'fs':fs,'opened':[],'digests':[],'io_error_at':None})
+        run.ghost.update({'fs':fs,'links':links,'opened':[],'digests':[],'io_error_at':None})
         if run.pick(2,'io_error'):
             files=sorted(fs); run.ghost['io_error_at']=(files[run.pick(len(files),'err_file')],1+run.pick(2,'err_read'))
         mk=lambda l: Ref(Cell(VecO([mk_str(x) for x in l])))
         args=[mk(paths),none() if algs is None else some(mk(algs)),none() if strips is None else some(mk(strips))]
-        return args,{'fs':fs,'paths':paths,'strips':strips,'algs':algs}
+        return args,{'fs':fs,'links':links,'paths':paths,'strips':strips,'algs':algs}
+    def target_of(self,g,p):
+        import posixpath
+        for _ in range(8):
+            if p not in g['links']: return p
+            t=g['links'][p]
+            p=t[len('@ROOT/'):] if t.startswith('@ROOT/') else posixpath.normpath(posixpath.join(posixpath.dirname(p),t))
     def expected(self,g):
-        files=[p for p in sorted(g['fs']) if any(p==r or p.startswith(r+'/') for r in g['paths'])]
+        # every regular file reachable under the path arguments: files, and symbolic links that lead to a file (recorded under the link's own path)
+        files=[p for p in sorted(list(g['fs'])+list(g['links'])) if any(p==r or p.startswith(r+'/') for r in g['paths'])]
         keys={}
         for p in files:
             best=''
@@ -155,7 +205,7 @@ class Record(Obligation):
         return files,keys
     def check(self,run,out,g):
         oc=outcome_of(out); rec={'outcome':oc,'viol':None,'wit':[],'sample':None,'obl':1}
-        def scn(m): return {'kind':'record','fs':{p:[model_value(m,x) for x in c] for p,c in g['fs'].items()},'paths':g['paths'],'strips':g['strips'],'algs':g['algs']}
+        def scn(m): return {'kind':'record','fs':{p:[model_value(m,x) for x in c] for p,c in g['fs'].items()},'links':g['links'],'paths':g['paths'],'strips':g['strips'],'algs':g['algs']}
         def W(n):
             if n not in self.seen: self.seen.add(n); rec['wit'].append(n)
         files,keys=self.expected(g)
@@ -174,7 +224,7 @@ class Record(Obligation):
                 rec['viol']={'kind':'wrong_key_set','known_key':None,'scenario':scn(m0),'predicted':'keys:'+','.join(sorted(got)),'what':'recorded keys %s differ from the expected %s'%(sorted(got),sorted(keys))}; return rec
             algs=g['algs'] or ['sha256']
             for key,ps in keys.items():
-                desc=deref(got[key]); content=g['fs'][ps[0]]
+                desc=deref(got[key]); content=g['fs'][self.target_of(g,ps[0])]
                 if len(desc.e)!=len(algs):
                     rec['viol']={'kind':'wrong_algorithm_set','known_key':None,'scenario':scn(m0),'predicted':'ok','what':'digest entry count differs from the requested algorithms'}; return rec
                 for ak,hv in desc.e:
@@ -188,13 +238,13 @@ class Record(Obligation):
                     same=bytes_eq(pre,content)
                     r,m=run.check_sat(z3.Not(same.z()))
                     if r==z3.sat:
-                        rec['viol']={'kind':'digest_of_other_bytes','known_key':None,'scenario':scn(m),'predicted':'ok','what':'the digest recorded for %s was computed over bytes other than exactly the file content'%key}; return rec
+                        rec['viol']={'kind':'digest_of_other_bytes','confirm':{'digests_ok':False},'known_key':None,'scenario':scn(m),'predicted':'keys:'+','.join(sorted(got)),'what':'the digest recorded for %s was computed over bytes other than exactly the file content'%key}; return rec
             W('recorded')
-            if is_sample(run,self.seed,12): rec['sample']={'scenario':scn(m0),'expect':'keys:'+','.join(sorted(got))}
+            if is_sample(run,self.seed,12): rec['sample']={'scenario':scn(m0),'expect':'keys:'+','.join(sorted(got)),'confirm':{'digests_ok':True}}
         else:
             reason=None
             if unknown: reason='unknown_algorithm_error'
-            elif run.ghost['io_error_at'] and run.ghost['io_error_at'][0] in run.ghost['opened']: reason='io_error'
+            elif run.ghost['io_error_at'] and run.ghost['io_error_at'][0] in [self.target_of(g,p) for p in run.ghost['opened']]+run.ghost['opened']: reason='io_error'
             elif dup: reason='duplicate_key_error'
             if reason is None:
                 rec['viol']={'kind':'spurious_error','known_key':None,'scenario':scn(m0),'predicted':'err','what':'record_artifacts fails although all files are readable, keys are unique and the algorithms are known'}; return rec
